@@ -137,6 +137,13 @@ def main():
             check("A16 create_dataset returns the handle; attrs.create/get; items() enumerates the datasets",
                   set(its) == {"y", "z"} and bool(its["y"].attrs.get("sparse")) and its["z"].attrs.get("sparse") is None
                   and tuple(its["y"].attrs.get("shape")) == (2, 3) and np.array_equal(array(its["y"]), array([1.0, 2.0])))
+        # A17 scalar datasets, group.get, and the design-space layout helpers
+        with h5py.File(d / "ds.h5", "w") as f:
+            g = f.require_group("design_space").require_group("x")
+            g.create_dataset("size", data=3)
+            g.create_dataset("var_type", data=array(["float"] * 3, dtype="bytes"))
+            check("A17 dataset[()] of a scalar dataset is the stored scalar; group.get(name) is the member or None; array([t]*n, dtype='bytes')[0].decode() == t",
+                  g["size"][()] == 3 and g.get("value") is None and g.get("size") is not None and array(g.get("var_type"))[0].decode() == "float")
         # S1-S4 scipy sparse arrays: tocsr() keeps the matrix, a CSR array is its triple, csr_array((d, i, p), s) has these components,
         # hasattr(v, 'indptr') holds for CSR, CSC and BSR (so it does not identify CSR)
         import scipy.sparse as sp
